@@ -11,8 +11,9 @@ git -C /repo worktree add -q --detach $WT HEAD || exit 2
 cp /repo/Cargo.lock $WT/ 2>/dev/null
 for id in "$@"; do
   d=/verif/seeded/$id/; P=${id%%-*}
-  git -C $WT checkout -q -- . ; git -C $WT clean -fdq -e Cargo.lock -e target
-  if git -C $WT apply $d/patch.diff 2>/dev/null || git -C $WT apply --3way $d/patch.diff 2>/dev/null || (cd $WT && patch -p1 -s -F3 < $d/patch.diff >/dev/null 2>&1); then
+  git -C $WT reset -q --hard HEAD; git -C $WT clean -fdq -e Cargo.lock -e target
+  # a patch written before later fix: commits may no longer apply: plain apply, else a conflict-free 3-way merge; never a fuzzy/partial application
+  if git -C $WT apply $d/patch.diff 2>/dev/null || { git -C $WT apply --3way $d/patch.diff 2>/dev/null && [ -z "$(git -C $WT diff --name-only --diff-filter=U)" ] && ! grep -rqs '^<<<<<<< ' $WT/src; }; then
     CHECKS=$(python3 -c "import json;print(' '.join(sorted(json.load(open('$d/meta.json')).get('checks',{'$P':1}).keys())))")
     RES=""
     for c in $CHECKS; do
@@ -20,7 +21,7 @@ for id in "$@"; do
       if echo "$OUT" | grep -q "^VIOLATION"; then V=caught; if echo "$OUT" | grep -q "no-failing-input-found"; then V=caught-no-input; fi; else V=MISSED; fi
       RES="$RES $c:$V"
     done
-  else RES="patch-does-not-apply-after-fixes"; fi
+  else RES="patch-does-not-apply-after-fixes"; git -C $WT reset -q --hard HEAD; fi
   python3 - "$d" "$RES" <<'PY'
 import json,sys
 d,res=sys.argv[1],sys.argv[2]
